@@ -322,6 +322,21 @@ def run(ctx):
                                     ctx.bad(R_narrow, "C2|%s|%s|%s" % (path, opk, "+".join(w.split("→")[0] for w in whys2)), "%s:%d" % (f.file, t["ln"]),
                                             "%s of two input fields (%s) carried out in %s, the width they were read at, with no bound on either" % (opk, ", ".join(w.split("→")[0] for w in whys2), tn),
                                             "ordinary hostile values overflow: panic `attempt to %s with overflow` in builds with overflow checks, a wrapped (small) value elsewhere" % ("add" if opk == "Add" else "multiply"))
+                        elif opk == "Mul" and any(whys2) and not all(whys2):
+                            # C3: an input-derived count multiplied by an element size *in 32 bits* (or less): the product of a hostile
+                            # count and any size >= 2 wraps.  (In 64 bits the same product of 32-bit sources cannot.)
+                            l0 = op_local(t["ops"][0]) if op_local(t["ops"][0]) is not None else op_local(t["ops"][1])
+                            tn = (f.crate.ty(f.mir["locals"][l0][0]) or "") if l0 is not None else ""
+                            other = t["ops"][1] if whys2[0] else t["ops"][0]
+                            kc = mirg.op_int(other)
+                            if tn in ("u8", "u16", "u32", "i8", "i16", "i32") and not (kc is not None and kc in (0, 1)):
+                                tainted_op = t["ops"][0] if whys2[0] else t["ops"][1]
+                                if ft.sanitised(tainted_op, bb, strict=True, lower_ok=False):
+                                    ctx.ok(R_narrow, {"fn": path, "op": opk, "line": t["ln"], "sanitised": True, "form": "count x size"})
+                                else:
+                                    ctx.bad(R_narrow, "C3|%s|Mul|%s" % (path, (whys2[0] or whys2[1]).split("→")[0]), "%s:%d" % (f.file, t["ln"]),
+                                            "an input-derived value (%s) is multiplied by %s in %s with no bound on it" % ((whys2[0] or whys2[1]), "the constant %d" % kc if kc is not None else "an element size", tn),
+                                            "a hostile count wraps the product: panic `attempt to multiply with overflow` in builds with overflow checks; elsewhere the wrapped (small) product passes the size check it was computed for and the unwrapped count sizes the allocation")
                     continue
                 ops = t["ops"]
                 whys = [ft.operand_tainted(o) for o in ops]
